@@ -18,6 +18,7 @@ USER_QUERIES = ('StorageManager::get_user_state', 'StorageManager::get_user_data
 
 
 def run(ctx):
+    history_selection_value_blind(ctx)
     prog = ctx.prog
     b = prog.fn_and_inner(ss.SM + 'tombstone_value_states')
     where = '%s:%s' % (b.file, b.line)
@@ -101,3 +102,33 @@ def run(ctx):
 
 def _is_log(b, d):
     return 'Level::' in show(d['cond']) or 'max_level' in show(d['cond'])
+
+
+def history_selection_value_blind(ctx):
+    """tombstoning rewrites only `value`; the server's choice of which states a key-history request covers must not
+    look at it, or a tombstoned label's history changes shape (seeded change C20-r1-b filtered tombstoned states out
+    of MostRecent(n)).  No branch condition and no filter/retain closure in Directory::key_history depends on a value
+    state's `value` field or on TOMBSTONE."""
+    import re
+    from rules import dir_shared as ds
+    from analysis.mir import leaves, walk
+    prog = ctx.prog
+    kh = prog.fn_and_inner(ds.D + 'key_history')
+    bodies = [kh] + [c for c in prog.children(kh.path)]
+    bad, n = [], 0
+    for b in bodies:
+        exprs = []
+        for sb, t in b.switches():
+            exprs.append((b.loc((sb, len(b.blocks[sb]['s']))), b.expr_op(t['d'], (sb, len(b.blocks[sb]['s'])))))
+        if b.kind == 'closure':
+            exprs.append(('%s:%s' % (b.file, b.line), result_expr(b)))
+        for where, e in exprs:
+            n += 1
+            lv = leaves(e)
+            if any(re.search(r'(^|\.)value(\.|\[|$)', l) for l in lv) or any(x[0] == 'const' and 'TOMBSTONE' in str(x[1]) for x in walk(e)) or \
+                    'TOMBSTONE' in show(e):
+                bad.append('%s: %s' % (where, show(e)[:100]))
+    ctx.ob('C20.H.selection_value_blind', 'RF-FLOW', not bad and n >= 5, kh.path, bad[0].split(': ')[0] if bad else '%s:%s' % (kh.file, kh.line),
+           'no decision of key_history (%d branch conditions / closure results) depends on a stored value' % n if not bad and n >= 5 else
+           'key_history decides by the stored value (tombstoned states would be treated differently): %s' % (bad or 'only %d decisions found' % n),
+           key='RF-FLOW|C20.selection_value_blind')
